@@ -1500,6 +1500,17 @@ class FuncAnalysis:
             return None
         if name == "iter" and len(argav) != 2:
             return None
+        if name == "reduce" and len(argav) == 3 and not kwav and cands and all(i == 0 for i, _ in cands):
+            # reduce(f, xs, init): the accumulator starts as `init` ITSELF (not as one of its elements), every step hands f the
+            # accumulator and an element of xs, and the result is the last accumulator - `init` when xs is empty.  The elements of
+            # xs may be callables themselves (`reduce(lambda g, step: step(g), steps, g)`)
+            acc = argav[2]
+            el = elem_of(argav[1])
+            el = AV(el.tags, el.kind, el.g, el.r, el.elems, el.fields, el.cls, fn=el.fn | argav[1].fn)
+            for _ in range(2):
+                for _, cav in cands:
+                    acc = acc.join(self.call_fn(n, cav.fn, [acc, el], {}))
+            return acc
         others = [av for j, av in enumerate(argav) if not any(i == j for i, _ in cands)] + [av for k, av in kwav.items() if not any(i == k for i, _ in cands)]
         if isinstance(f, ast.Attribute) and name == "sort":
             others.append(self.ev(f.value))
